@@ -79,6 +79,10 @@ func refOf(i int, rpc *RPC) Ref {
 				r.Status, r.Code = "status:Unknown:EOF", "Unknown"
 			case op == "ret:plain":
 				r.Status, r.Code = "status:Unknown:plain failure", "Unknown"
+			case op == "ret:wrapdl":
+				r.Status, r.Code = "status:DeadlineExceeded:", "DeadlineExceeded"
+			case op == "ret:wrapcancel":
+				r.Status, r.Code = "status:Canceled:", "Canceled"
 			case op == "ret:okerr":
 				r.Status, r.Code = "failed", "any" // a failure; which status the client sees is not fixed
 			}
